@@ -374,6 +374,17 @@ func (i *interpreter) symStrBinop(op token.Token, x, y value) value {
 	if op == token.ADD {
 		return i.newSymStr("concat")
 	}
+	if op == token.EQL || op == token.NEQ {
+		sx, okx := x.(symStr)
+		sy, oky := y.(symStr)
+		if okx && oky {
+			e := i.symEquals(nil, sx, sy)
+			if op == token.NEQ {
+				e = i.tc.Not(e)
+			}
+			return i.tc.mkBool(e)
+		}
+	}
 	panic(unsupported("operator " + op.String() + " on an opaque (symbolic-derived) string"))
 }
 
